@@ -128,10 +128,11 @@ def run_case(ci):
     left = os.listdir(tmp)
     if left:
         v.append(("tmpdir-not-clean:%s:%s" % (cmd, oc), "%s: TMPDIR still holds %s after exit %d" % (label, left[:5], p.returncode)))
-    expect_ok = oc == "success" and not refuse
+    # reverse and map never link, so an undefined linkname target is not an error for them
+    expect_ok = (oc == "success" or (oc == "link-error" and cmd in ("reverse", "map"))) and not refuse
     if expect_ok and p.returncode != 0 and not (cmd == "reverse" and p.returncode == 1):
         v.append(("command-fails:%s" % cmd, "%s: exit %d: %s" % (label, p.returncode, short(p.stderr, 600))))
-    if not expect_ok and p.returncode == 0 and oc != "success":
+    if not expect_ok and p.returncode == 0 and oc != "success" and not (oc == "link-error" and cmd in ("reverse", "map")):
         v.append(("error-not-reported:%s:%s" % (cmd, oc), "%s: exit 0" % label))
     for u in untouched:
         now = snapshot(u) if os.path.isdir(u) and not os.path.islink(u) else (sha256_file(u) if os.path.exists(u) else None)
